@@ -61,11 +61,11 @@ static int vpolicy(int ci, int vi, int dir, size_t ws) { trace_h = hash_u64((uin
 
 static int state_class(void)      /* coverage accounting only */
 {
-        int s = (int)W.at->state, c;
+        int s = OBJ_STATE(), c;
         if (s == CAT_STATE_IDLE) c = 0; else if (s == CAT_STATE_HOLD) c = 4; else if (s == CAT_STATE_FLUSH_IO_WRITE || s == CAT_STATE_FLUSH_IO_WRITE_WAIT) c = 3;
         else if (s >= CAT_STATE_PARSE_PREFIX && s <= CAT_STATE_PARSE_COMMAND_ARGS) c = 1; else c = 2;
-        if (W.at->unsolicited_fsm.state != CAT_UNSOLICITED_STATE_IDLE) c += 5;
-        if (W.at->unsolicited_fsm.unsolicited_cmd_buffer_items_count == CAT_UNSOLICITED_CMD_BUFFER_SIZE) c += 10;
+        if (OBJ_USTATE() != CAT_UNSOLICITED_STATE_IDLE) c += 5;
+        if (OBJ_UCOUNT() == CAT_UNSOLICITED_CMD_BUFFER_SIZE) c += 10;
         return c;
 }
 static int do_op(const struct op *o)
@@ -167,6 +167,27 @@ static void b_on_lock(bool is_lock, int result)
         if (is_lock) { if (b_have && h != b_last_unlock) viol("C16", "state-touched-outside-the-lock", "parser state changed between the previous unlock and this lock"); }
         else { b_last_unlock = h; b_have = true; b_brackets++; }
 }
+/* another party calls the locking API while cat_service is inside a handler, i.e. while it holds the mutex: the other party's attempt to lock fails (a timed
+ * lock that gives up), so its call must report ERROR_MUTEX_LOCK, must not unlock, and must have done nothing at all */
+static prng_t FP;
+static void foreign_probe(struct hcall *h)
+{
+        (void)h;
+        if (W.use_mutex && MX_DEPTH == 1 && pr_pct(&FP, 6)) {
+                struct op o; unsigned r = pr_n(&FP, 100); o.ci = (uint8_t)pr_n(&FP, (unsigned)W.ncmds); o.arg = (uint8_t)pr_n(&FP, 2);
+                o.type = r < 50 ? OP_TRIG : r < 60 ? OP_TRIG_R : r < 70 ? OP_TRIG_T : r < 80 ? OP_HEXIT : r < 87 ? OP_BUSY : r < 94 ? OP_FULL : OP_HOLD;
+                void (*keep)(bool, int) = ON_LOCK; void (*keepw)(long) = ON_LOCK_WAIT; ON_LOCK = NULL; ON_LOCK_WAIT = NULL;
+                uint64_t before = world_hash(); long f0 = MX_FOREIGN_LOCKS, l0 = MX_LOCKS, u0 = MX_UNLOCKS; int ph = PHASE;
+                MX_FOREIGN_CALLER = true; PHASE = 0;
+                int rr = do_op(&o);
+                MX_FOREIGN_CALLER = false; PHASE = ph; ON_LOCK = keep; ON_LOCK_WAIT = keepw;
+                CNT("api_calls_by_another_party_while_a_handler_runs");
+                if (MX_FOREIGN_LOCKS - f0 + MX_LOCKS - l0 != 1) viol("C16", MX_FOREIGN_LOCKS == f0 ? "no-lock-taken" : "lock-taken-twice", "%s, called while cat_service holds the mutex (inside a handler), called mutex->lock %ld times", OPN[o.type], MX_FOREIGN_LOCKS - f0 + MX_LOCKS - l0);
+                else if (rr != CAT_STATUS_ERROR_MUTEX_LOCK) viol("C16", "lock-failure-not-reported", "%s returned %d although mutex->lock failed (the mutex is held by cat_service)", OPN[o.type], rr);
+                if (MX_UNLOCKS != u0) { viol("C16", "unlock-after-failed-lock", "%s called mutex->unlock although the lock was not taken", OPN[o.type]); MX_DEPTH = 1; }
+                if (world_hash() != before) viol("C16", "state-changed-after-failed-lock", "%s changed parser state although mutex->lock failed", OPN[o.type]);
+        }
+}
 static void engine_history_with_mutex(void)
 {
         snprintf(note, sizeof note, "engine history with the mock mutex (bracket monitors only, no fault)");
@@ -182,7 +203,9 @@ static void engine_history_with_mutex(void)
         b_have = false; b_brackets = 0;
         eng_monitors_install();
         ON_LOCK = b_on_lock;
+        ENG_ON_HANDLER = foreign_probe; pr_seed(&FP, CUR_SEED ^ 0xF0, (uint64_t)CUR_CASE);
         eng_run_history();
+        ENG_ON_HANDLER = NULL;
         if (MX_DEPTH != 0) viol("C16", "lock-not-released", "the lock is still held at the end of the history");
         if (MX_LOCKS != MX_UNLOCKS) viol("C16", "unbalanced", "%ld lock calls, %ld unlock calls", MX_LOCKS, MX_UNLOCKS);
         CNT("engine_histories_with_mutex"); CNTN("brackets_checked_in_engine_histories", b_brackets);
